@@ -113,8 +113,26 @@ def main(argv=None):
     try:
         rc, ev = decide(pid, cfg, args.tier, seed, args)
     except assemble.Undecided as e:
-        print("UNDECIDED property=%s reason=%s" % (pid, str(e).replace("\n", " | ")[:2000]))
-        rc, ev = 2, None
+        # the deductive part has no verdict; the failing inputs of repaired defects are still replayed on the real code:
+        # a defect that is back is reported with its input whatever the state of the proof
+        back = []
+        try:
+            back = [o for o in extra.fixed_replays(pid, args.repo) if o['status'] == 'fail']
+        except Exception:
+            back = []
+        if back:
+            os.makedirs(os.path.join(VERIF, 'replays'), exist_ok=True)
+            for o in back:
+                rp = os.path.join(VERIF, 'replays', '%s-%s.json' % (pid, re.sub(r'[^A-Za-z0-9_.-]+', '_', o['name'])))
+                with open(rp, 'w') as fo:
+                    json.dump({"property": pid, "obligation": o['name'], "verdict": "the failing input of a repaired defect fails again on the real code",
+                               "counterexample": o.get('counterexample'), "replay_on_real_code": o.get('replay'), "checker_cmd": o.get('cmd'),
+                               "note": "the deductive part of this run was undecided: " + str(e)[:600]}, fo, indent=1)
+                print("VIOLATION property=%s replay=%s obligation=%s" % (pid, rp, o['name']))
+            rc, ev = 1, None
+        else:
+            print("UNDECIDED property=%s reason=%s" % (pid, str(e).replace("\n", " | ")[:2000]))
+            rc, ev = 2, None
     if ev is not None and not args.no_evidence:
         ev['wall_s'] = round(time.time() - t0, 2)
         os.makedirs(os.path.join(VERIF, 'evidence'), exist_ok=True)
